@@ -304,8 +304,10 @@ def rebase_note_lines_beyond_file(trace, viol):
     """notes written by the rebase content-replay path describe the whole file state carried over
     from the original head, also for commits of the range that did not touch the file: they can
     list line numbers the file does not have at that commit"""
-    if viol.get("class") != "line_beyond_file":
+    if viol.get("class") not in ("line_beyond_file", "lists_absent_path"):
         return False
+    if viol.get("class") == "lists_absent_path" and (viol.get("detail") or {}).get("commit_touches_offending_path", False):
+        return False      # (only: a file that a LATER commit of the range creates, carried into an earlier commit's note)
     av = _step_argv(trace, viol)
     st = viol.get("step")
     ops = _ops(trace)
